@@ -101,25 +101,26 @@ def hidden_state_inventory(ctx, rule, rs_cells):
 
 
 def _diagnostic(ctx, reach, adt_id, fname):
-    bodies = [ctx.facts.bodies[x] for x in reach if x in ctx.facts.bodies]
-
     def is_state(e):
         return isinstance(e, tuple) and len(e) > 3 and e[0] == "field" and str(e[2]) == fname and e[3] == adt_id
-    return RS.value_never_leaves(ctx, bodies, is_state)
+    return RS.value_never_leaves(ctx, None, is_state)
 
 
 def _diagnostic_tls(ctx, reach, key):
     """the thread-local's cell is only handed to closures that write it / update it from itself"""
-    bodies = []
+    accessors = set()
     for (b, bi, t, k, cid) in ctx.model.tls_sites:
-        if k == key and cid in ctx.facts.bodies and b.id in reach:
-            bodies.append(ctx.facts.bodies[cid])
-    if not bodies:
+        if k == key and cid in ctx.facts.bodies:
+            accessors.add(cid)
+    if not accessors:
         return False, "no accessor"
 
     def is_state(e):
+        cur = getattr(is_state, "cur", None)
+        if cur is None or cur.id not in accessors:
+            return False
         return e == ("arg", 2) or (isinstance(e, tuple) and e and e[0] == "deref" and e[1] == ("arg", 2))
-    return RS.value_never_leaves(ctx, bodies, is_state)
+    return RS.value_never_leaves(ctx, None, is_state)
 
 
 def _singletons(ctx):
